@@ -407,7 +407,8 @@ impl TmplGroup {
                 w.expr_stmt(|w| {
                     write!(
                         w,
-                        r#"R[{path}]=D({path},(require,exports,module)=>{{{}}})"#,
+                        // (the line break keeps a trailing `//` comment of the script from swallowing the end)
+                        "R[{path}]=D({path},(require,exports,module)=>{{{}\n}})",
                         script,
                         path = gen_lit_str(p)
                     )?;
